@@ -88,6 +88,7 @@ struct Wd {
     prefixes: Vec<(String, Ledger, Vec<O>)>,
 }
 
+const REWARD2_FEE_BPS: u16 = 1000;
 const RATE_1: u128 = 1u128 << 64; // one token per second
 const RATE_SMALL: u128 = (1u128 << 64) / 7; // a seventh of a token per second
 const RATE_HUGE: u128 = 1u128 << 120; // dt * rate overflows u128 for dt >= 256; a day of emissions exceeds any vault
@@ -101,7 +102,12 @@ fn build(label: &str, enc: [Enc; 3], vault0: u64) -> Wd {
     let mut rwallet = [Pubkey::default(); 3];
     for i in 0..3 {
         rmint[i] = key(&format!("{label}/rmint{i}"));
-        world::create_spl_mint(&mut l, rmint[i], 6, None);
+        if i == 2 {
+            // the third reward is paid in a Token-2022 mint with a 10 % transfer fee (collect_reward_v2 / initialize_reward_v2 only)
+            world::create_t22_mint(&mut l, rmint[i], 6, None, &[world::T22Ext::TransferFee { bps: REWARD2_FEE_BPS, max: u64::MAX }]);
+        } else {
+            world::create_spl_mint(&mut l, rmint[i], 6, None);
+        }
         rvault[i] = world::reward_vault_key(&w.pool, i as u8);
         rwallet[i] = key(&format!("{label}/rwallet{i}"));
         world::create_token_account(&mut l, rwallet[i], rmint[i], w.lp.owner, 0);
@@ -162,7 +168,23 @@ fn build(label: &str, enc: [Enc; 3], vault0: u64) -> Wd {
         O::Base(Op::Inc { pos: 1, liq: stdworlds::BIG / 3, v2: true }),
         O::Base(Op::Clock(7)),
     ];
+    // ... and long enough for the third reward's vault (40 000 tokens) to hold less than position 0 is owed: a partial payout in a
+    // mint that withholds a transfer fee
+    let mut three_over = three.clone();
+    for _ in 0..5 {
+        three_over.push(O::Base(Op::Clock(86_400)));
+    }
+    three_over.push(O::Base(Op::Update { pos: 0 }));
+    three_over.push(O::Base(Op::Update { pos: 1 }));
+    // the FIRST reward is initialised but has never emitted (growth 0) while the second one emits: per-index bookkeeping at tick
+    // crossings must not stop at an idle lower index
+    let mut second_only = vec![O::InitReward { index: 0, v2: false }, O::InitReward { index: 1, v2: true }];
+    second_only.extend(fund.clone());
+    second_only.push(O::SetEmissions { index: 1, rate: RATE_BIG, v2: true });
+    second_only.push(O::Base(Op::Clock(50)));
     let prefixes = vec![
+        ("second-reward-only".to_string(), l.clone(), second_only),
+        ("three-rewards-over-owed".to_string(), l.clone(), three_over),
         ("three-rewards".to_string(), l.clone(), three),
         ("empty-emitting".to_string(), l.clone(), empty_emitting),
         ("late-lower-tick".to_string(), l.clone(), late_lower),
@@ -199,6 +221,7 @@ fn alphabet() -> Vec<O> {
     a.push(O::Collect { pos: 1, index: 0, v2: true });
     a.push(O::Collect { pos: 2, index: 1, v2: true });
     a.push(O::Collect { pos: 1, index: 2, v2: true });
+    a.push(O::Collect { pos: 0, index: 2, v2: true });
     a.push(O::SetEmissions { index: 0, rate: 0, v2: false });
     a.push(O::SetEmissions { index: 0, rate: RATE_1, v2: true });
     a.push(O::SetEmissions { index: 0, rate: RATE_HUGE, v2: false }); // must be refused: no vault holds a day of it
@@ -370,11 +393,11 @@ impl<'a> M<'a> {
         let auth = w.cfg.reward_emissions_super_authority;
         match op {
             O::Base(b) => ops::build(l, w, b),
-            O::InitReward { index, v2 } => Some(world::ix_init_reward(&w.pool, auth, w.funder, self.wd.rmint[*index as usize], world::TOKEN, *index, *v2)),
+            O::InitReward { index, v2 } => Some(world::ix_init_reward(&w.pool, auth, w.funder, self.wd.rmint[*index as usize], l.get(&self.wd.rmint[*index as usize]).map(|a| a.owner).unwrap_or(world::TOKEN), *index, *v2)),
             O::SetEmissions { index, rate, v2 } => Some(world::ix_set_reward_emissions(&w.pool, auth, self.wd.rvault[*index as usize], *index, *rate, *v2)),
             O::Collect { pos, index, v2 } => {
                 let i = *index as usize;
-                Some(world::ix_collect_reward(&w.positions[*pos as usize], w.lp.owner, self.wd.rwallet[i], self.wd.rmint[i], world::TOKEN, self.wd.rvault[i], *index, *v2))
+                Some(world::ix_collect_reward(&w.positions[*pos as usize], w.lp.owner, self.wd.rwallet[i], self.wd.rmint[i], l.get(&self.wd.rmint[i]).map(|a| a.owner).unwrap_or(world::TOKEN), self.wd.rvault[i], *index, *v2))
             }
             O::Drain { .. } => None,
         }
@@ -458,10 +481,13 @@ impl<'a> Model for M<'a> {
                 let (pi, i) = (*pos as usize, *index as usize);
                 let before = w.positions[pi].state(&s.l).reward_infos[i].amount_owed;
                 let vault = balance(&s.l, &self.wd.rvault[i]);
-                let paid = balance(&l, &self.wd.rwallet[i]) - balance(&s.l, &self.wd.rwallet[i]);
+                // paid = what left the vault; the holder receives it less the mint's transfer fee (reward 2 only)
+                let received = balance(&l, &self.wd.rwallet[i]) - balance(&s.l, &self.wd.rwallet[i]);
+                let paid = vault - balance(&l, &self.wd.rvault[i]);
                 let after = w.positions[pi].state(&l).reward_infos[i].amount_owed;
-                if paid != before.min(vault) || after != before - paid || balance(&l, &self.wd.rvault[i]) != vault - paid {
-                    return Err(format!("collect_reward paid {paid} and left {after} owed; position was owed {before}, vault held {vault}: expected min(owed, vault) paid and the remainder still owed"));
+                let fee = if i == 2 { (paid as u128 * REWARD2_FEE_BPS as u128).div_ceil(10_000) as u64 } else { 0 };
+                if paid != before.min(vault) || after != before - paid || received != paid - fee {
+                    return Err(format!("collect_reward took {paid} out of the vault, the holder received {received} (transfer fee {fee}) and {after} is left owed; position was owed {before}, vault held {vault}: expected min(owed, vault) paid and the remainder still owed"));
                 }
                 self.c.collects.fetch_add(1, Ordering::Relaxed);
                 if paid < before {
@@ -474,7 +500,11 @@ impl<'a> Model for M<'a> {
                 let i = *index as usize;
                 let amt = self.fund_on_init[i];
                 if amt > 0 {
-                    let mi = spl_token::instruction::mint_to(&world::TOKEN, &self.wd.rmint[i], &self.wd.rvault[i], &world::mint_authority(), &[], amt).unwrap();
+                    let mi = if l.get(&self.wd.rmint[i]).map(|a| a.owner) == Some(world::T22) {
+                        spl_token_2022::instruction::mint_to(&world::T22, &self.wd.rmint[i], &self.wd.rvault[i], &world::mint_authority(), &[], amt).unwrap()
+                    } else {
+                        spl_token::instruction::mint_to(&world::TOKEN, &self.wd.rmint[i], &self.wd.rvault[i], &world::mint_authority(), &[], amt).unwrap()
+                    };
                     svm::process_builtin(&mut l, &mi).map_err(|e| format!("harness: funding reward vault failed: {e}"))?;
                 }
             }
@@ -576,7 +606,7 @@ fn root_states(wd: &Wd, m: &M) -> Result<Vec<(String, St)>, String> {
 fn model<'a>(wd: &'a Wd, c: &'a Counters) -> M<'a> {
     // reward 0: exactly one day of RATE_1 emissions (so collects can exhaust the vault: pays min(owed, vault));
     // reward 1: a deep vault (RATE_BIG for a day)
-    M { wd, alphabet: alphabet(), c, fund_on_init: [86_400, 86_400_000_000 * 2, 1_000_000] }
+    M { wd, alphabet: alphabet(), c, fund_on_init: [86_400, 86_400_000_000 * 2, 40_000] }
 }
 
 pub fn run(ctx: &Ctx) -> Report {
